@@ -48,108 +48,205 @@ func (P *Prog) checkAddShape(r *Result) {
 		rootKey = strings.Trim(o.Val().ExactString(), `"`)
 	}
 	var problems []string
-	nFirst, nMain := 0, 0
-	mainBlocks := map[*ssa.BasicBlock]bool{}
-	var mainList []*ssa.BasicBlock
-	eachInstr(fn, func(b *ssa.BasicBlock, _ int, in ssa.Instruction) {
-		mu, ok := in.(*ssa.MapUpdate)
-		if !ok {
-			return
-		}
-		fromRecv := false
-		for _, rt := range P.rootsOf(mu.Map) {
-			if rt.kind == rkParam && rt.v == recv {
-				fromRecv = true
+	// The decision paths of Add (key helpers entered): atoms "the map is nil", "the path is
+	// empty", "the key is present"; events: one per map update with the resolved key and value shape.
+	keyKind := func(k ssa.Value) string {
+		kv := cv(k)
+		if sv, ok := constString(kv); ok {
+			switch sv {
+			case firstKey:
+				return "first"
+			case rootKey:
+				return "root"
 			}
+			return "other"
 		}
-		if !fromRecv {
-			problems = append(problems, "a map other than the receiver's is updated at "+P.ipos(in))
-			return
+		if kv == pathP {
+			return "path"
 		}
-		if k, ok := constString(mu.Key); ok && k == firstKey {
-			nFirst++
-			if !sliceLitContains(mu.Value, errP) {
-				problems = append(problems, "$first is not set to a one-element list holding the issue")
-			}
-			guarded := false
-			for _, gd := range guardsOf(b) {
-				if x, eq, isN := isNilCompare(gd.If.Cond); isN && gd.True == eq {
-					if _, f := loadOfField(cv(x)); f != nil && f.Name() == "M" {
-						guarded = true
-					}
-				}
-			}
-			if !guarded {
-				problems = append(problems, "$first is written on a path where the map already existed: it would not be the first issue")
-			}
-			return
-		}
-		// key must be path param or the $root rewrite
-		keyOK := false
-		switch kv := cv(mu.Key).(type) {
-		case *ssa.Parameter:
-			keyOK = kv == pathP
-		case *ssa.Phi:
-			keyOK = true
-			for i, e := range kv.Edges {
-				if cv(e) == pathP {
-					continue
-				}
-				if s, ok := constString(e); ok && s == rootKey {
-					// the predecessor of this edge must be reached only when path == ""
-					pred := kv.Block().Preds[i]
-					g := false
-					for _, gd := range append(guardsOf(pred), guardsOfEdge(pred, kv.Block())...) {
-						if bo, ok := gd.If.Cond.(*ssa.BinOp); ok && bo.Op == token.EQL && gd.True {
-							if (cv(bo.X) == pathP && isEmptyString(bo.Y)) || (cv(bo.Y) == pathP && isEmptyString(bo.X)) {
-								g = true
-							}
-						}
-					}
-					if !g {
-						keyOK = false
-					}
-					continue
-				}
-				keyOK = false
-			}
-		}
-		if !keyOK {
-			problems = append(problems, "an issue is filed under a key that is not its path (or $root for the empty path) at "+P.ipos(in))
-		}
-		// value: append(M[sameKey], err) or an empty-list initialisation
-		if c, ok := mu.Value.(*ssa.Call); ok && callOf(c).builtin == "append" {
-			lk, isLk := cv(c.Call.Args[0]).(*ssa.Lookup)
-			if isLk && sameValue(lk.Index, mu.Key) && len(c.Call.Args) == 2 && sliceLitContains(c.Call.Args[1], errP) {
-				nMain++
-				mainBlocks[b] = true
-				mainList = append(mainList, b)
-				return
-			}
-			problems = append(problems, "the append at "+P.ipos(in)+" does not add exactly this issue to the list already stored under the same key")
-			return
-		}
-		if sl, ok := mu.Value.(*ssa.Slice); ok {
+		return "other"
+	}
+	isEmptyLit := func(v ssa.Value) bool {
+		if sl, ok := cv(v).(*ssa.Slice); ok {
 			if al, ok := sl.X.(*ssa.Alloc); ok {
 				if at, ok := al.Type().(*types.Pointer).Elem().(*types.Array); ok && at.Len() == 0 {
-					return // empty list initialisation
+					return true
 				}
 			}
 		}
-		problems = append(problems, "unexpected value stored in the issue map at "+P.ipos(in))
-	})
-	if nFirst != 1 {
-		problems = append(problems, fmt.Sprintf("%d writes of $first (expected 1)", nFirst))
+		if c, ok := cv(v).(*ssa.Const); ok && c.Value == nil {
+			return true // a nil slice
+		}
+		return false
 	}
-	if ok, _ := mustPassThrough(fn.Blocks[0], mainBlocks); !ok {
-		problems = append(problems, "some path returns without filing the issue under its path")
-	}
-	for _, a := range mainList {
-		for _, b := range mainList {
-			if a != b && reachFromSuccs(a, nil)[b] {
-				problems = append(problems, "the issue can be filed twice on one path")
+	lookupOf := func(v ssa.Value) *ssa.Lookup {
+		switch x := cv(v).(type) {
+		case *ssa.Lookup:
+			return x
+		case *ssa.Extract:
+			if lk, ok := x.Tuple.(*ssa.Lookup); ok && x.Index == 0 {
+				return lk
 			}
 		}
+		return nil
+	}
+	fromRecv := func(m ssa.Value) bool {
+		for _, rt := range P.rootsOf(m) {
+			if rt.kind == rkParam && rt.v == recv {
+				return true
+			}
+		}
+		return false
+	}
+	spec := &pathSpec{name: "add-shape", inlineAll: true}
+	spec.cond = func(iff *ssa.If) (string, string, string) {
+		c := cv(iff.Cond)
+		if x, eq, isN := isNilCompare(c); isN {
+			if _, f := loadOfField(cv(x)); f != nil && f.Name() == "M" {
+				if eq {
+					return "MAP-NIL", "T", "F"
+				}
+				return "MAP-NIL", "F", "T"
+			}
+		}
+		if bo, ok := c.(*ssa.BinOp); ok && (bo.Op == token.EQL || bo.Op == token.NEQ) {
+			if (cv(bo.X) == pathP && isEmptyString(cv(bo.Y))) || (cv(bo.Y) == pathP && isEmptyString(cv(bo.X))) {
+				if bo.Op == token.EQL {
+					return "PATH-EMPTY", "T", "F"
+				}
+				return "PATH-EMPTY", "F", "T"
+			}
+		}
+		neg := false
+		if u, ok := c.(*ssa.UnOp); ok && u.Op == token.NOT {
+			neg, c = true, cv(u.X)
+		}
+		if ex, ok := c.(*ssa.Extract); ok && ex.Index == 1 {
+			if lk, ok := ex.Tuple.(*ssa.Lookup); ok && lk.CommaOk && fromRecv(lk.X) {
+				if neg {
+					return "HAS-KEY", "F", "T"
+				}
+				return "HAS-KEY", "T", "F"
+			}
+		}
+		return "", "", ""
+	}
+	spec.condAux = func(iff *ssa.If) ssa.Value {
+		c := cv(iff.Cond)
+		if u, ok := c.(*ssa.UnOp); ok && u.Op == token.NOT {
+			c = cv(u.X)
+		}
+		if ex, ok := c.(*ssa.Extract); ok {
+			if lk, ok := ex.Tuple.(*ssa.Lookup); ok {
+				return cv(lk.Index)
+			}
+		}
+		return nil
+	}
+	spec.events = func(in ssa.Instruction) []pathItem {
+		mu, ok := in.(*ssa.MapUpdate)
+		if !ok {
+			return nil
+		}
+		if !fromRecv(mu.Map) {
+			return []pathItem{{kind: "PUT-FOREIGN", in: in}}
+		}
+		kk := keyKind(mu.Key)
+		val := "other"
+		switch {
+		case sliceLitContains(cv(mu.Value), errP):
+			val = "lit-issue"
+		case isEmptyLit(mu.Value):
+			val = "empty-init"
+		default:
+			if c, ok := cv(mu.Value).(*ssa.Call); ok && callOf(c).builtin == "append" && len(c.Call.Args) == 2 && sliceLitContains(c.Call.Args[1], errP) {
+				if lk := lookupOf(c.Call.Args[0]); lk != nil && fromRecv(lk.X) && sameValue(lk.Index, mu.Key) {
+					val = "append-same"
+				} else if isEmptyLit(c.Call.Args[0]) {
+					val = "append-empty"
+				} else {
+					val = "append-other"
+				}
+			}
+		}
+		return []pathItem{{kind: "PUT-" + kk, val: val, in: in, aux: cv(mu.Key)}}
+	}
+	res := P.enumPathsSpec(fn, nil, spec)
+	if res.capHit {
+		r.undecided("C10/add-shape", fname(fn), P.pos(fn.Pos()), "too many paths to enumerate")
+		return
+	}
+	nFirst := map[ssa.Instruction]bool{}
+	for _, p := range res.paths {
+		if p.end != "RETURN" {
+			problems = append(problems, "Add can end other than by returning ("+p.end+")")
+			continue
+		}
+		note := func(msg string) { problems = append(problems, msg+"  [path: "+p.String()+"]") }
+		mapNil, mapTested, pathEmpty, pathTested := false, false, false, false
+		absent := []ssa.Value{} // keys decided absent on this path
+		nMain := 0
+		for _, it := range p.items {
+			switch {
+			case it.kind == "MAP-NIL":
+				mapTested, mapNil = true, it.val == "T"
+			case it.kind == "PATH-EMPTY":
+				pathTested, pathEmpty = true, it.val == "T"
+			case it.kind == "HAS-KEY":
+				if it.val == "F" && it.aux != nil {
+					absent = append(absent, it.aux)
+				}
+			case it.kind == "PUT-FOREIGN":
+				note("a map other than the receiver's is updated at " + P.ipos(it.in))
+			case it.kind == "PUT-first":
+				nFirst[it.in] = true
+				if it.val != "lit-issue" {
+					note("$first is not set to a one-element list holding the issue")
+				}
+				if !(mapTested && mapNil) {
+					note("$first is written on a path where the map already existed: it would not be the first issue")
+				}
+			case strings.HasPrefix(it.kind, "PUT-"):
+				if it.val == "empty-init" {
+					continue // an empty list stored before the append
+				}
+				kk := strings.TrimPrefix(it.kind, "PUT-")
+				switch {
+				case kk == "path" && pathTested && !pathEmpty:
+				case kk == "root" && pathTested && pathEmpty:
+				default:
+					note("an issue is filed under a key that is not its path (or $root for the empty path) at " + P.ipos(it.in))
+				}
+				switch it.val {
+				case "append-same":
+					nMain++
+				case "append-empty":
+					okAbs := false
+					for _, a := range absent {
+						if sameValue(a, it.aux) {
+							okAbs = true
+						}
+					}
+					if !okAbs {
+						note("the append at " + P.ipos(it.in) + " starts a new list although the key may already hold issues: earlier issues of that path are lost")
+					}
+					nMain++
+				case "lit-issue":
+					note("the list stored at " + P.ipos(it.in) + " replaces the issues already filed under that key")
+				default:
+					note("the append at " + P.ipos(it.in) + " does not add exactly this issue to the list already stored under the same key")
+				}
+			}
+		}
+		switch {
+		case nMain == 0:
+			note("some path returns without filing the issue under its path")
+		case nMain > 1:
+			note("the issue can be filed twice on one path")
+		}
+	}
+	if len(nFirst) != 1 {
+		problems = append(problems, fmt.Sprintf("%d writes of $first (expected 1)", len(nFirst)))
 	}
 	if len(problems) > 0 {
 		r.bad("C10/add-shape", fname(fn), P.pos(fn.Pos()), strings.Join(uniqSorted(problems), "; "))
